@@ -276,6 +276,19 @@ func loadBaseline(vdir string) *Baseline {
 	return b
 }
 
+func unitInBaseline(inBaseline map[string]bool, name string) bool {
+	unit := name
+	if i := strings.Index(name, "#"); i >= 0 {
+		unit = name[:i]
+	}
+	for n := range inBaseline {
+		if strings.HasPrefix(n, unit+"#") {
+			return true
+		}
+	}
+	return false
+}
+
 func report(vdir, prop, tier string, seed int, results []*engine.UnitResult, t0 time.Time, verbose, updateBaseline, partial bool) int {
 	known := loadKnown(vdir)
 	baseline := loadBaseline(vdir)
@@ -412,6 +425,12 @@ func report(vdir, prop, tier string, seed int, results []*engine.UnitResult, t0 
 			default:
 				if inBaseline[o.Name] {
 					violations = append(violations, writeViolation(vdir, prop, o, "obligation discharged on the unchanged tree is no longer discharged (solvers: "+o.Status+")"))
+				} else if o.Kind == "frame" && unitInBaseline(inBaseline, o.Name) {
+					// a frame obligation is also an assumption: everything after the loop (or in the
+					// callers) was proved assuming the writes stay inside the modifies clause.  A new
+					// write target in a function that was fully verified on the unchanged tree leaves
+					// those proofs without their premise.
+					violations = append(violations, writeViolation(vdir, prop, o, "a previously verified function writes to a location outside its modifies clause that was not written on the unchanged tree (solvers: "+o.Status+")"))
 				} else {
 					undecided = append(undecided, o.Name)
 				}
